@@ -1699,6 +1699,19 @@ class Interp:
             if meth == "clear":
                 recv.items.clear()
                 return None
+            if meth == "find" and len(args) == 1:
+                k_ = self.ev(args[0], env)
+                if isinstance(k_, bool):
+                    k_ = int(k_)
+                if getattr(recv, "_snap", None) is None or len(recv._snap.items) != len(recv.items):
+                    try:
+                        recv._snap = Vec(sorted(recv.items))
+                    except TypeError:
+                        recv._snap = Vec(sorted(recv.items, key=repr))
+                for i_, x_ in enumerate(recv._snap.items):
+                    if (x_ is k_) if isinstance(k_, Obj) else (not isinstance(x_, Obj) and x_ == k_):
+                        return Iter(recv._snap, i_)
+                return Iter(recv._snap, len(recv._snap.items))
             if meth == "insert" and len(args) == 2:
                 a0, a1 = self.ev(args[0], env), self.ev(args[1], env)
                 if isinstance(a0, Iter) and isinstance(a1, Iter) and a0.v is a1.v:
